@@ -1,4 +1,98 @@
-(* C16 - placeholder while the tie is being calibrated *)
-From Coq Require Import List NArith.
-From LBZ Require Import Front.FsModel Front.MainLoop Front.FrontSpec.
-Example C16_stub : True. Proof. exact I. Qed.
+(* C16 - Interrupted or failed runs never lose data.
+   Only statements; every proof is [exact <lemma>].
+
+   [run_full codec cfg fs operands plan] is the operand loop of main() over the abstract
+   file system; [plan] says which occurrence of which system call fails with which errno,
+   or at which call SIGINT / SIGTERM / SIGKILL is raised (Front/MainLoop.v explains what
+   is modelled about asynchrony: signals arrive at counted system calls).  The final state
+   carries a ghost history with one entry per operand that was started: the file system
+   before and after it, how it ended, and two ghost flags (unlink(input) failed; the
+   unlink() inside cleanup() failed).
+
+   Two declared restrictions appear as hypotheses of the statements:
+   - [h_cleanfail h = false]: the unlink() inside cleanup() did not itself fail (see
+     C16_cleanup_failure_refuted for what happens otherwise: a partial output remains,
+     the input is intact);
+   - [plain_op]: with -f the operand is not a symbolic link (see C16_force_symlink_refuted:
+     with -f, a symbolic link to the file that has the output's name loses the data). *)
+From Coq Require Import List NArith Arith Bool String Ascii Lia.
+From LBZ Require Import Gen.FrontTab Front.FsModel Front.MainLoop Front.FrontSpec Front.FrontLemmas
+     Front.FrontNoFault Front.FrontProofs Front.FrontHoare Front.FrontSafety Front.FrontC16.
+Import ListNotations.
+Local Open Scope N_scope.
+
+(* Under EVERY plan, every operand that was started ends in one of the two states
+   ([safe]: input intact and no new output, or output complete + closed and input removed
+   unless -k / unlink failed); after SIGKILL the input is intact or the output complete;
+   and when the run was stopped by a fatal error other than close(input), by a handled
+   signal, or hangs, it is the FIRST state. *)
+Theorem C16_every_started_operand :
+  forall codec cf f ops pl h,
+    In h (m_hist (fst (run_full codec cf f ops pl))) ->
+    h_cleanfail h = false -> plain_op cf (h_before h) (h_op h) ->
+    match h_disp h with
+    | DAborted WKill => kill_safe codec cf (h_before h) (h_after h) (h_op h)
+    | DAborted y => safe codec cf (h_before h) (h_after h) (h_op h) (h_rmfail h) /\
+                    (strict_first y = true -> first_or_kept cf (h_before h) (h_after h) (h_op h))
+    | _ => safe codec cf (h_before h) (h_after h) (h_op h) (h_rmfail h)
+    end.
+Proof. exact every_started_operand. Qed.
+
+(* The same, per operand and from any state at an operand boundary (this is what the
+   whole-run statement is folded from). *)
+Theorem C16_one_operand :
+  forall codec cf pl op s, boundary_ok s ->
+    match run_op codec cf pl op s with
+    | Ret _ s' => boundary_ok s' /\ exists h, m_hist s' = h :: m_hist s /\ entry_ok codec cf h
+    | Stop o y s' => exists h, m_hist s' = h :: m_hist s /\ entry_ok codec cf h
+    end.
+Proof. exact run_op_ok. Qed.
+
+(* The status/state pairing of the property text does not hold literally: exit status 1
+   and death by SIGTERM also occur with the SECOND state (output complete, input removed):
+   when close() of the input fails, and when a signal that became pending after halt()
+   returned is taken at sti().  Nothing is lost in either case. *)
+Theorem C16_status_pairing_refuted :
+  exists codec cf f op pl1 pl2,
+    (let '(s, o) := run_full codec cf f [op] pl1 in
+     o = Exit 1 /\ exists h, m_hist s = [h] /\ second_state codec cf (h_before h) (h_after h) op (h_rmfail h)) /\
+    (let '(s, o) := run_full codec cf f [op] pl2 in
+     o = Killed SIGTERM /\ exists h, m_hist s = [h] /\ second_state codec cf (h_before h) (h_after h) op (h_rmfail h)).
+Proof. exact status_pairing_witness. Qed.
+
+(* With -f a symbolic link operand is followed.  If it points to the file that has the
+   output's name, -f unlinks that file first; when the run then fails, the data is gone:
+   no name refers to the inode any more although the run ended with status 1. *)
+Theorem C16_force_symlink_refuted :
+  exists codec cf f op pl ino,
+    nlook f "x"%string = Some (DLink ino) /\ (exists nd, ilook f ino = Some nd /\ i_data nd <> []) /\
+    snd (run codec cf f [op] pl) = Exit 1 /\
+    forall p, nlook (fst (run codec cf f [op] pl)) p <> Some (DLink ino).
+Proof. exact force_symlink_witness. Qed.
+
+(* If the unlink() inside cleanup() fails as well (double fault), a partial output file
+   remains although the exit status is 1; the input is intact. *)
+Theorem C16_cleanup_failure_refuted :
+  exists codec cf f op pl,
+    let '(s, o) := run_full codec cf f [op] pl in
+    o = Exit 1 /\ exists h, m_hist s = [h] /\ h_cleanfail h = true /\
+      ~ first_state cf (h_before h) (h_after h) op /\ input_intact (h_before h) (h_after h) op.
+Proof. exact cleanup_failure_witness. Qed.
+
+(* non-vacuity: SIGINT raised at the second write() of a compression: the handler removes
+   the partial output and the process dies by SIGINT; the input is untouched *)
+Example C16_example_sigint :
+  let '(s, o) := run_full ex16_codec ex16_cfg ex16_fs ["a"%string] [(KWrite, 2%nat, Raise SIGINT)] in
+  o = Killed SIGINT /\
+  exists h, m_hist s = [h] /\ h_disp h = DAborted WSigHandled /\ h_cleanfail h = false /\
+            nlook (m_fs s) "a"%string = Some (DLink 1) /\ nlook (m_fs s) "a.bz2"%string = None /\
+            ilook (m_fs s) 1 = ilook ex16_fs 1.
+Proof. vm_compute. split; [reflexivity|]. eexists. repeat split. Qed.
+
+(* ... and SIGKILL one call later, after close(output): both files are there *)
+Example C16_example_sigkill :
+  let '(s, o) := run_full ex16_codec ex16_cfg ex16_fs ["a"%string] [(KUnlink, 1%nat, Raise SIGKILL)] in
+  o = Killed SIGKILL /\
+  exists j nd, nlook (m_fs s) "a"%string = Some (DLink 1) /\ nlook (m_fs s) "a.bz2"%string = Some (DLink j) /\
+               ilook (m_fs s) j = Some nd /\ i_committed nd = true /\ i_data nd = [66; 90; 104; 57; 3; 2; 1].
+Proof. vm_compute. split; [reflexivity|]. eexists. eexists. repeat split. Qed.
